@@ -1,12 +1,8 @@
 #!/bin/sh
-# Offline setup: optional third-party helpers next to the repo's interpreter,
-# byte-compile the framework.  Nothing is fetched from the network.
+# Offline setup: nothing to fetch or install.  The framework is pure Python on
+# top of the repository's own interpreter (/venv, pymap installed editable from
+# /repo) and the standard library (asyncio, sys.addaudithook, sys.monitoring).
 set -e
 cd "$(dirname "$0")"
-if [ ! -d .deps/icontract ]; then
-  /venv/bin/pip install --quiet --no-index --find-links /opt/veriftools/wheels \
-      --target .deps icontract >/dev/null 2>&1 || \
-      echo "note: icontract not installed (structural diagnostics fall back to plain wrappers)"
-fi
 /venv/bin/python -m compileall -q vf >/dev/null
 /venv/bin/python -c "import pymap, sys; print('pymap from', pymap.__file__)"
